@@ -1,8 +1,75 @@
 import Solvor.Common.Proto
-import Solvor.Ds.Model
-/-! Ds: line-protocol handler. One request line in, one reply line out. -/
-namespace Solvor.Ds
+import Solvor.Ds.Fenwick
+import Solvor.Ds.UF
+/-! Ds: line-protocol handler (run under the interpreter: `lake env lean --run Solvor/Ds/Main.lean`).
 
-def handle (line : String) : String := "unimplemented " ++ line
+`["uf", n, ops]`, ops = list of `[kind, x, y, r]` (kind 0 union, 1 find, 2 connected, 3 count,
+4 sizes, 5 comps; `r` = the root the implementation returned for a find, else 0).
+Reply `[ufOuts, qfOuts, roots, implRep]`: the union-find's outputs (`ufStep`), the reference's
+(`qfStep`), for each op the raw root the mirror's `find` returned (0 for other ops), and for each
+find the reference class name of the implementation's root.
+
+`["fen", init, ops]`, init = list of ints, or `[n]`-wrapped size for `FenwickTree(n)` as
+`["zeros", n]`; ops = `[0, i, d]` update, `[1, i]` prefix, `[2, l, r]` range_sum.
+Reply `[fenOuts, arrOuts]`.
+-/
+namespace Solvor.Ds
+open Solvor.Proto
+
+def outVal : Out → Val
+  | .bool b => .bool b
+  | .nat k => .int k
+  | .nats l => Val.ofNats l
+  | .natss l => Val.ofNatss l
+
+def decodeU : List Nat → Option UOp
+  | [0, x, y, _] => some (.union x y)
+  | [1, x, _, _] => some (.find x)
+  | [2, x, y, _] => some (.connected x y)
+  | [3, _, _, _] => some .count
+  | [4, _, _, _] => some .sizes
+  | [5, _, _, _] => some .comps
+  | _ => none
+
+def ufLoop (n : Nat) : PyUF → List Nat → List (List Nat) → List Val → List Val → List Val → List Val →
+    Option (List Val × List Val × List Val × List Val)
+  | _, _, [], a, b, c, d => some (a.reverse, b.reverse, c.reverse, d.reverse)
+  | s, lab, raw :: rest, a, b, c, d =>
+    match decodeU raw with
+    | none => none
+    | some op =>
+      let u := ufStep n s op
+      let q := qfStep lab op
+      let (root, rep) : Nat × Nat := match op with
+        | .find x => ((s.find x).2, classRep lab (raw.getD 3 0))
+        | _ => (0, 0)
+      ufLoop n u.1 q.1 rest (outVal u.2 :: a) (outVal q.2 :: b) (Val.int root :: c) (Val.int rep :: d)
+
+def decodeF : List Int → Option FOp
+  | [0, i, d] => some (.update i.toNat d)
+  | [1, i] => some (.pre i.toNat)
+  | [2, l, r] => some (.range l.toNat r.toNat)
+  | _ => none
+
+def handle (line : String) : String :=
+  match request line with
+  | some ("uf", [n, ops]) =>
+    match n.toNat?, ops.toNatss? with
+    | some n, some ops =>
+      match ufLoop n (PyUF.init n) (List.range n) ops [] [] [] [] with
+      | some (a, b, c, d) => (Val.arr [.arr a, .arr b, .arr c, .arr d]).render
+      | none => err "bad op"
+    | _, _ => err "bad arguments"
+  | some ("fen", [init, ops]) =>
+    let t0 : Option (List Int × List Int) := match init with
+      | .arr [.str "zeros", .int n] => some (List.replicate n.toNat 0, List.replicate n.toNat 0)
+      | v => (v.toInts?).map fun vals => (fenBuild vals, vals)
+    match t0, ops.toIntss? with
+    | some (t, a), some ops =>
+      match ops.mapM decodeF with
+      | some fops => (Val.arr [Val.ofInts (fenRun t fops), Val.ofInts (arrRun a fops)]).render
+      | none => err "bad op"
+    | _, _ => err "bad arguments"
+  | _ => err "bad request"
 
 end Solvor.Ds
